@@ -15,6 +15,10 @@ def _expected(text: str, i: int) -> Any:
 
 def replay_positions(obligation: str = "", model: Optional[Dict[str, str]] = None, desc: str = "", **_: Any) -> Dict[str, Any]:
     texts = ["x = 1", "x = 1\ny = 2", "x = 1\n\n  \nclass A:\n    b = 3\n", "a=1\nb=2\nc=3"]
+    # characters that str.splitlines() treats as line breaks but Python's tokenizer does not
+    for ch in ("\x0b", "\x0c", "\x1c", "\x1d", "\x1e", "\x85", "\u2028", "\u2029"):
+        texts.append(f'x = "a{ch}b"\ny = 2\nclass A:\n    z = 3')
+        texts.append(f"x = 1  # c{ch}d\ny = 2")
     for text in texts:
         atok = asttokens.ASTTokens(text, parse=True)
         lc = LinenoColumner(atok=atok)
